@@ -19,6 +19,7 @@ CONSTANTS
   DevRateKeyHeader = FALSE
   DevRefundOnRefusal = FALSE
   RateBad = FALSE
+  DevTrimValues = FALSE
   DevRawNewlines = TRUE
 INVARIANTS C29_ListComplete
 VIEW View
